@@ -30,6 +30,9 @@ CHECKS = {
  "C05": dict(cat="fault_enumeration", tech="TLA+ rule set for fault outcomes (consistency by TLC) + enumeration of every (evaluation index, fault kind) in real chains, each API call validated against the rules by trace validation",
    text="For 3 NUTS presets every density evaluation of set_position plus draws crossing the first transformation change (so initial search, trajectories, re-run search) is hit in turn by each of 8 fault kinds (recoverable / unrecoverable error, NaN, +inf, -inf log-density, NaN / inf gradient, energy jump), plus sampled pairs; every API call of every run (under catch_unwind) is one line that FaultTrace must accept under the FaultSemantics rules R1-R6; TLC also checks the rule set is total and that a fatal fault forces Err.",
    note="phase of an evaluation derived from hook events of the same run; non-fatal faults at initialisation / at the start evaluation of the re-run search may end in Ok or Err (the statement does not say); MCLMC retry behaviour is covered under C18", ref="5/C05"),
+ "C16": dict(cat="model_checking", tech="TLA+ per-draw schema automaton; trace validation of get_all() output of real chains against the declared schema",
+   text="The declared schema (names, types, dims, event dims, dim sizes) is the trace header; every draw of 240 (quick) / 2400 (thorough) chains over all six presets x store_* flags x mass-matrix options x dims x divergence / update histories is one line; the spec requires exact names and order, declared type and length for present values, all-or-none presence of non-event fields, event fields only on event draws, identifying fields on every event draw, divergence fields iff diverging, update fields iff the transformation id (from the adaptation hook) changed, counters +1, constant chain id.",
+   note="'changed' comes from the adaptation hook rather than from the statistic itself; name distinctness is not part of this property", ref="5/C16"),
 }
 NOT_APPLICABLE = {
  "C19": "encode/decode fidelity of a plain data structure plus equality of two deterministic runs: no state machine, schedule, history or fault to specify in TLA+ (DESIGN.md 5/C19)",
